@@ -1,4 +1,297 @@
-import AGH.Spec.DHCP
+/-
+C10 — DHCPv4 never leases one address to two clients; lease table survives restart.
+
+Property theorems only (helper lemmas live in AGH/Lemmas/DHCP*.lean).  The
+model (`AGH/Model/DHCP.lean`) transcribes `internal/dhcpd/v4_unix.go` after the
+repairs F5–F7 and F16/F17; `Reachable O c s` are the states it reaches from the
+empty table by ANY history of DISCOVER / REQUEST (selecting, init-reboot, renew)
+/ DECLINE / RELEASE / static add, update, remove / sleep / restart whose
+hardware addresses are 6 bytes long, for ANY hostname oracle `O` and ANY
+configuration `c`.
+
+Two clauses of the property are violated by the code (and by the model), both
+in hostname handling — R3 (`commitLease` falls back to the generated hostname
+without a uniqueness check) and R4 (`ResetLeases` renames unnamed dynamic leases
+on load).  For these the full statements
+
+  ∀ reachable s, ∀ l ∈ s.leases, l.host ≠ [] → s.hosts l.host = some l.id          -- index complete
+  ∀ reachable s, Mirror s → (restart O c s).leases.map Lease.view ~ s.leases.map Lease.view
+
+are false: see `C10_counterexample_*`; `*_partial` give what holds under the
+explicit hypothesis that excludes the failing pattern.
+-/
+import AGH.Lemmas.DHCPHostIdx
 namespace AGH.C10
-theorem C10_placeholder : State.init.leases = [] := rfl
+open AGH
+
+/-! ### the invariant, for all histories -/
+
+theorem C10_inv_init (c : Conf) : Inv c State.init := Inv_init c
+
+/-- Every operation keeps the invariant (addresses and MACs unique, dynamic
+leases inside the pool, bitset / address index / hostname index in step with
+the table, file well-formed). -/
+theorem C10_inv_step (O : Oracle) (c : Conf) (s : State) (op : Op) (h : Inv c s) (hw : op.wf) :
+    Inv c (step O c s op).1 := Inv_step h hw
+
+theorem C10_inv_reachable (O : Oracle) (c : Conf) (ops : List Op) (hw : ∀ op ∈ ops, op.wf) :
+    Inv c (run O c State.init ops) := run_inv ops _ (Inv_init c) hw
+
+/-! ### what the property says, in Prop form -/
+
+/-- For every address at most one lease (held or not, static or dynamic). -/
+theorem C10_no_shared_address {O : Oracle} {c : Conf} {s : State} (hr : Reachable O c s)
+    {l₁ l₂ : Lease} (h₁ : l₁ ∈ s.leases) (h₂ : l₂ ∈ s.leases) (hip : l₁.ip = l₂.ip) : l₁ = l₂ :=
+  nodup_map_inj hr.inv.ipNodup h₁ h₂ hip
+
+/-- A client holds at most one lease. -/
+theorem C10_one_lease_per_client {O : Oracle} {c : Conf} {s : State} (hr : Reachable O c s)
+    {l₁ l₂ : Lease} (h₁ : l₁ ∈ s.leases) (h₂ : l₂ ∈ s.leases) (hmac : l₁.mac = l₂.mac) : l₁ = l₂ :=
+  nodup_map_inj hr.inv.macNodup h₁ h₂ hmac
+
+/-- The table holds every lease once (no object twice). -/
+theorem C10_each_lease_once {O : Oracle} {c : Conf} {s : State} (hr : Reachable O c s) :
+    (s.leases.map (·.id)).Nodup ∧ (s.leases.map (·.ip)).Nodup ∧ (s.leases.map (·.mac)).Nodup :=
+  ⟨hr.inv.idNodup, hr.inv.ipNodup, hr.inv.macNodup⟩
+
+/-- Dynamic addresses lie inside the pool, are not the gateway and never
+coincide with a static reservation. -/
+theorem C10_dynamic_in_pool_not_reserved {O : Oracle} {c : Conf} {s : State} (hc : ConfOK c)
+    (hr : Reachable O c s) {l : Lease} (hl : l ∈ s.leases) (hd : l.static = false) :
+    (c.start ≤ l.ip ∧ l.ip ≤ c.stop) ∧ l.ip ≠ c.gw ∧ ∀ r ∈ s.leases, r.static = true → r.ip ≠ l.ip := by
+  have hp := hr.inv.dynPool l hl hd
+  refine ⟨hp, fun e => hc.gwOut ⟨e ▸ hp.1, e ▸ hp.2⟩, ?_⟩
+  intro r hrm hrs e
+  have : r = l := nodup_map_inj hr.inv.ipNodup hrm hl e
+  rw [this, hd] at hrs; cases hrs
+
+/-- The address of a positive reply is recorded in the table for the client it was sent to. -/
+theorem C10_reply_recorded {O : Oracle} {c : Conf} {s : State} (hr : Reachable O c s) {op : Op} (hw : op.wf)
+    {m : Bytes} (hm : op.mac? = some m) (hrc : (step O c s op).2.rc = 1) (hyi : (step O c s op).2.yi ≠ 0) :
+    ∃ l ∈ (step O c s op).1.leases, l.mac = m ∧ l.ip = (step O c s op).2.yi :=
+  step_recorded hr.inv hw hm hrc hyi
+
+/-- A client with a reservation is only ever given that address (OFFER, ACK of
+any REQUEST flavour, DECLINE replacement). -/
+theorem C10_reserved_client_gets_reservation {O : Oracle} {c : Conf} {s : State} (hr : Reachable O c s)
+    {op : Op} (hw : op.wf) {m : Bytes} (hm : op.mac? = some m)
+    (hrc : (step O c s op).2.rc = 1) (hyi : (step O c s op).2.yi ≠ 0)
+    {r : Lease} (hrl : r ∈ (step O c s op).1.leases) (_hrs : r.static = true) (hrm : r.mac = m) :
+    (step O c s op).2.yi = r.ip := by
+  obtain ⟨l, hl, h1, h2⟩ := step_recorded hr.inv hw hm hrc hyi
+  have : r = l := nodup_map_inj (Inv_step (O := O) hr.inv hw).macNodup hrl hl (by rw [hrm, h1])
+  rw [this, h2]
+
+/-- A DISCOVER from a new client is answered with an OFFER of a pool address
+whenever some pool address is neither leased (held by an unexpired lease) nor
+reserved — also when every address carries a lease and only expired ones are left. -/
+theorem C10_offer_liveness {O : Oracle} {c : Conf} {s : State} (hr : Reachable O c s)
+    {mac : Bytes} (hlen : mac.length = 6) (hnew : ∀ l ∈ s.leases, l.mac ≠ mac)
+    (hfree : ∃ a, c.start ≤ a ∧ a ≤ c.stop ∧ ∀ l ∈ s.leases, l.ip = a → l.static = false ∧ l.exp < s.now) :
+    (step O c s (.discover mac)).2.rc = 1 ∧ (step O c s (.discover mac)).2.typ = 2 ∧
+    c.start ≤ (step O c s (.discover mac)).2.yi ∧ (step O c s (.discover mac)).2.yi ≤ c.stop := by
+  have h0 : Inv c { s with stale := [] } := Inv_congr hr.inv rfl rfl rfl rfl rfl rfl
+  have hstep : (step O c s (.discover mac)).2 = (handleDiscover c mac { s with stale := [] }).2 := by
+    unfold step
+    simp only [validMAC_of_len hlen, Bool.not_true, Bool.false_eq_true, if_false]
+  rw [hstep]
+  exact handleDiscover_offer h0 hlen hnew hfree
+
+/-- No DHCP message and no lapse of time adds, removes, moves, renames or
+re-assigns a reservation: the static leases of the table are literally the same
+list before and after (so a reserved client keeps its address whatever other
+clients send, also when the pool is exhausted and expired leases are recycled). -/
+theorem C10_reservations_unchanged_by_dhcp {O : Oracle} {c : Conf} {s : State} (hr : Reachable O c s)
+    {op : Op} (hw : op.wf) (hd : op.isDHCP = true) :
+    (step O c s op).1.leases.filter (·.static) = s.leases.filter (·.static) :=
+  step_statics hr.inv hw hd
+
+/-- The bitset of leased offsets is exactly the set of pool addresses in the table. -/
+theorem C10_bitset_agrees {O : Oracle} {c : Conf} {s : State} (hr : Reachable O c s) (o : Nat) :
+    s.bits o = true ↔ ∃ l ∈ s.leases, l.ip = c.start + o ∧ l.ip ≤ c.stop := hr.inv.bitsIff o
+
+/-- The address index maps exactly the addresses of the table, each to its lease. -/
+theorem C10_ip_index_agrees {O : Oracle} {c : Conf} {s : State} (hr : Reachable O c s) (ip id : Nat) :
+    s.ips ip = some id ↔ ∃ l ∈ s.leases, l.ip = ip ∧ l.id = id := hr.inv.ipsIff ip id
+
+/-- Every entry of the hostname index points to a lease of the table that carries that name. -/
+theorem C10_host_index_sound {O : Oracle} {c : Conf} {s : State} (hr : Reachable O c s) (h : Bytes) (id : Nat)
+    (he : s.hosts h = some id) : ∃ l ∈ s.leases, l.id = id ∧ l.host = h := hr.inv.hostsSound h id he
+
+/-! ### the database file -/
+
+/-- Every operation other than a restart ends with `dbStore` or changes neither
+table nor file — including DECLINE and a failing static-lease call. -/
+theorem C10_store_or_unchanged {O : Oracle} {c : Conf} {s : State} (hr : Reachable O c s) {op : Op}
+    (hne : op ≠ .restart) :
+    (∃ x : State, (step O c s op).1 = x.store) ∨
+    ((step O c s op).1.leases = s.leases ∧ (step O c s op).1.disk = s.disk) :=
+  step_store_or_same hr.inv hne
+
+/-- The file lists exactly the leases in memory after every operation other
+than a restart, once it did so before. -/
+theorem C10_disk_mirror_step {O : Oracle} {c : Conf} {s : State} (hr : Reachable O c s) {op : Op}
+    (hne : op ≠ .restart) (hm : Mirror s) : Mirror (step O c s op).1 := Mirror_step hr.inv hm hne
+
+/-- Along every history without a restart the file lists exactly the leases in memory. -/
+theorem C10_disk_mirror (O : Oracle) (c : Conf) (ops : List Op) (hw : ∀ op ∈ ops, op.wf)
+    (hnr : ∀ op ∈ ops, op ≠ .restart) : Mirror (run O c State.init ops) := by
+  suffices H : ∀ (ops : List Op) (s : State), Inv c s → Mirror s → (∀ op ∈ ops, op.wf) →
+      (∀ op ∈ ops, op ≠ .restart) → Mirror (run O c s ops) from H ops _ (Inv_init c) Mirror_init hw hnr
+  intro ops
+  induction ops with
+  | nil => intro s _ hm _ _; exact hm
+  | cons op rest ih =>
+    intro s hi hm hw hnr
+    unfold run
+    exact ih _ (Inv_step hi (hw op List.mem_cons_self)) (Mirror_step hi hm (hnr op List.mem_cons_self))
+      (fun o ho => hw o (List.mem_cons_of_mem _ ho)) (fun o ho => hnr o (List.mem_cons_of_mem _ ho))
+
+/-- What is on disk is a permutation of what is in memory: each lease once. -/
+theorem C10_disk_lists_each_lease_once {s : State} (hm : Mirror s) {d : List DLease} (hd : s.disk = some d) :
+    d.Perm (s.leases.map Lease.toDisk) := by
+  rcases hm with h | ⟨h, _⟩
+  · rw [hd] at h; cases h; exact sortByHost_perm _
+  · rw [hd] at h; cases h
+
+/-! ### the monitor of the check, on the model -/
+
+/-- The model meets the specification on its own observations, after every
+step of every history: all clauses about addresses and clients (`specCore`:
+shared address, two leases per client, pool, reservation, recorded reply, offer
+liveness, bitset, address index), DHCP messages leave the reservations alone,
+no step other than a restart makes the file differ from the table, and the
+hostname index is sound.  What is left of `specOK` are the two clauses the code
+violates (hostname index complete — R3; restart reproduces table and answers —
+R4), see below. -/
+theorem C10_model_meets_spec {O : Oracle} {c : Conf} {s : State} (hc : ConfOK c) (hr : Reachable O c s)
+    {op : Op} (hw : op.wf) :
+    specCore c (obsOf c s) op (step O c s op).2 (obsOf c (step O c s op).1) = true ∧
+    reservationsKept (obsOf c s) op (obsOf c (step O c s op).1) = true ∧
+    (op ≠ .restart → (diskMirror (obsOf c s) && !diskMirror (obsOf c (step O c s op).1)) = false) ∧
+    hostIndexSound (obsOf c (step O c s op).1) = true :=
+  ⟨specCore_step hc hr.inv hw, obs_reservationsKept hr.inv hw, fun hne => obs_disk_step hr.inv hne,
+    obs_hostIndexSound (Inv_step hr.inv hw)⟩
+
+/-! ### R3 — the generated hostname is not checked for uniqueness (unrepaired)
+
+Full statement (false): `∀ reachable s, ∀ l ∈ s.leases, l.host ≠ [] → s.hosts l.host = some l.id`
+("every named lease is what its name resolves to"), hence also "a restart restores the same table". -/
+
+/-- A reservation named `0-0-0-10`, a client that is offered 0.0.0.10 and
+requests it without a hostname: two leases carry the same name, the index entry
+of the reservation now points to the client, and the monitor names the cause. -/
+theorem C10_counterexample_generated_hostname_not_unique :
+    ConfOK c0 ∧ (∀ op ∈ opsR3, op.wf) ∧
+    (run O0 c0 State.init opsR3).leases.map (fun l => (l.ip, l.static, l.host)) =
+      [(20, true, name10), (10, false, name10)] ∧
+    (run O0 c0 State.init opsR3).hosts name10 = some 1 ∧
+    (∃ l ∈ (run O0 c0 State.init opsR3).leases, l.host ≠ [] ∧ (run O0 c0 State.init opsR3).hosts l.host ≠ some l.id) ∧
+    specWhy c0 (obsOf c0 (run O0 c0 State.init (opsR3.take 2))) (.request mB 2 true 10 0 [])
+      (step O0 c0 (run O0 c0 State.init (opsR3.take 2)) (.request mB 2 true 10 0 [])).2
+      (obsOf c0 (run O0 c0 State.init opsR3)) = some "generated-hostname-not-unique@request" := by
+  refine ⟨c0_ok, by decide, by decide, by decide, by decide, by decide⟩
+
+/-- What does hold: the hostname index stays complete over every step that is
+not an instance of R3 (`R3at`: a REQUEST commits a still unnamed lease, the
+wanted name is taken, and the generated name it falls back to is indexed for
+another lease) — DISCOVER, the other REQUESTs, DECLINE, RELEASE, the static-lease
+API and restart included. -/
+theorem C10_host_index_complete_step_partial {O : Oracle} {c : Conf} {s : State} (hr : Reachable O c s)
+    (hcpl : HostComplete s) {op : Op} (hw : op.wf) (hno : ¬ R3at O c s op) :
+    HostComplete (step O c s op).1 := (Inv2_step ⟨hr.inv, hcpl⟩ hw hno).2
+
+/-- Along every history without an instance of R3, every named lease is what its name resolves to. -/
+theorem C10_host_index_complete_partial (O : Oracle) (c : Conf) (ops : List Op) (hw : ∀ op ∈ ops, op.wf)
+    (hno : NoR3 O c State.init ops) : HostComplete (run O c State.init ops) :=
+  (run_inv2 ops _ ⟨Inv_init c, by intro l hl; cases hl⟩ hw hno).2
+
+/-- … and the next restart loses one of the two leases although the file listed both. -/
+theorem C10_counterexample_restart_drops_duplicate_hostname :
+    Mirror (run O0 c0 State.init opsR3) ∧
+    (run O0 c0 State.init opsR3).leases.length = 2 ∧
+    (restart O0 c0 (run O0 c0 State.init opsR3)).leases.map (fun l => (l.ip, l.static)) = [(20, true)] := by
+  refine ⟨.inl (by decide), by decide, by decide⟩
+
+/-! ### R4 — `ResetLeases` renames unnamed dynamic leases (unrepaired)
+
+Full statement (false): `∀ reachable s, Mirror s → (restart O c s).leases.map Lease.view` is a
+permutation of `s.leases.map Lease.view`, with the same `HostByIP` / `IPByHost` answers. -/
+
+/-- One DISCOVER, then a restart: the file mirrors the table, yet the reloaded
+lease has a hostname it did not have, and `IPByHost` answers a name it did not know. -/
+theorem C10_counterexample_restart_names_unnamed_lease :
+    ConfOK c0 ∧ (∀ op ∈ opsR4, op.wf) ∧ Mirror (run O0 c0 State.init opsR4) ∧
+    (run O0 c0 State.init opsR4).leases.map (·.host) = [[]] ∧
+    (restart O0 c0 (run O0 c0 State.init opsR4)).leases.map (·.host) = [name10] ∧
+    (obsOf c0 (run O0 c0 State.init opsR4)).ipByHost name10 = none ∧
+    (obsOf c0 (restart O0 c0 (run O0 c0 State.init opsR4))).ipByHost name10 = some 10 ∧
+    specWhy c0 (obsOf c0 (run O0 c0 State.init opsR4)) .restart (Reply.api "ok")
+      (obsOf c0 (restart O0 c0 (run O0 c0 State.init opsR4))) = some "restart-names-unnamed-lease" := by
+  refine ⟨c0_ok, by decide, .inl (by decide), by decide, by decide, by decide, by decide, by decide⟩
+
+/-- If the generated name is taken, the restart drops a lease — here the reservation. -/
+theorem C10_counterexample_restart_drops_lease_generated_name_taken :
+    Mirror (run O0 c0 State.init opsR4b) ∧
+    (run O0 c0 State.init opsR4b).leases.map (fun l => (l.ip, l.static, l.host)) = [(20, true, name10), (10, false, [])] ∧
+    (restart O0 c0 (run O0 c0 State.init opsR4b)).leases.map (fun l => (l.ip, l.static, l.host)) = [(10, false, name10)] ∧
+    specWhy c0 (obsOf c0 (run O0 c0 State.init opsR4b)) .restart (Reply.api "ok")
+      (obsOf c0 (restart O0 c0 (run O0 c0 State.init opsR4b))) = some "restart-drops-lease-generated-name-taken" := by
+  refine ⟨.inl (by decide), by decide, by decide, by decide⟩
+
+/-- What does hold (excludes R3 and R4 by hypothesis): when the file mirrors the
+table, reservations lie in the subnet, every dynamic lease carries a name that
+normalisation leaves alone and no two leases share a name, a restart restores
+exactly the table (every lease once, in file order), and the file mirrors it. -/
+theorem C10_restart_restores_table_partial {O : Oracle} {c : Conf} {s : State} (hr : Reachable O c s)
+    (hm : Mirror s)
+    (hsub : ∀ l ∈ s.leases, l.static = true → inSubnet c l.ip = true)
+    (hnamed : ∀ l ∈ s.leases, l.static = false → l.host ≠ [] ∧ O.norm l.host = some l.host ∧ O.valid l.host = true)
+    (huniq : ∀ l₁ ∈ s.leases, ∀ l₂ ∈ s.leases, l₁.host = l₂.host → l₁.host ≠ [] → l₁ = l₂) :
+    (restart O c s).leases.map Lease.toDisk = sortByHost (s.leases.map Lease.toDisk) ∧
+    ((restart O c s).leases.map Lease.toDisk).Perm (s.leases.map Lease.toDisk) := by
+  have h := restart_restores hr.inv hm hsub hnamed huniq
+  exact ⟨h, h ▸ sortByHost_perm _⟩
+
+/-! ### non-vacuity -/
+
+/-- `ConfOK` and `Op.wf` are satisfiable; a reachable table with a reservation,
+two acknowledged clients and an outstanding offer. -/
+example : ConfOK c0 ∧ (∀ op ∈ opsOK, op.wf) ∧
+    (run O0 c0 State.init opsOK).leases.map (fun l => (l.ip, l.static, l.exp)) =
+      [(20, true, 0), (10, false, 1060), (11, false, 1060), (12, false, 0)] :=
+  ⟨c0_ok, by decide, by decide⟩
+
+example : Reachable O0 c0 (run O0 c0 State.init opsOK) := ⟨opsOK, by decide, rfl⟩
+
+/-- The hypotheses of `C10_offer_liveness` hold in a state where every pool
+address carries a lease and only expiry frees one (and the offer recycles it). -/
+example :
+    let s := run O0 c0 State.init (opsOK ++ [.sleep 100])
+    (∀ l ∈ s.leases, l.mac ≠ [2, 0, 0, 0, 0, 9]) ∧
+    (∃ a, c0.start ≤ a ∧ a ≤ c0.stop ∧ ∀ l ∈ s.leases, l.ip = a → l.static = false ∧ l.exp < s.now) ∧
+    nextIP c0 s = none ∧
+    (step O0 c0 s (.discover [2, 0, 0, 0, 0, 9])).2 = { rc := 1, typ := 2, yi := 10, err := "ok" } := by
+  refine ⟨by decide, ⟨10, by decide, by decide, by decide⟩, by decide, by decide⟩
+
+/-- The hypotheses of `C10_restart_restores_table_partial` hold in a non-trivial state. -/
+example :
+    let s := run O0 c0 State.init (opsOK.take 5)
+    Mirror s ∧ s.leases.length = 3 ∧
+    (∀ l ∈ s.leases, l.static = true → inSubnet c0 l.ip = true) ∧
+    (∀ l ∈ s.leases, l.static = false → l.host ≠ [] ∧ O0.norm l.host = some l.host ∧ O0.valid l.host = true) ∧
+    (∀ l₁ ∈ s.leases, ∀ l₂ ∈ s.leases, l₁.host = l₂.host → l₁.host ≠ [] → l₁ = l₂) :=
+  ⟨.inl (by decide), by decide, by decide, by decide, by decide⟩
+
+/-- `HostComplete` holds in a non-trivial reachable state (three named leases). -/
+example : HostComplete (run O0 c0 State.init (opsOK.take 5)) ∧
+    (run O0 c0 State.init (opsOK.take 5)).leases.map (·.host) = [alpha, [98], [99]] := by
+  refine ⟨?_, by decide⟩
+  unfold HostComplete
+  decide
+
+/-- `C10_reserved_client_gets_reservation` is not vacuous: the reserved client is offered its reservation. -/
+example : (step O0 c0 (run O0 c0 State.init opsOK) (.discover mA)).2 = { rc := 1, typ := 2, yi := 20, err := "ok" } := by
+  decide
+
 end AGH.C10
